@@ -24,6 +24,8 @@ pub enum Fault {
     DropChunk(usize, usize),
     DupChunk(usize, usize),
     Rewrite(String),
+    /// two structural edits applied one after the other (a hole that needs two conditions at once)
+    Rewrite2(String, String),
     /// text added after (true) or before (false) an otherwise intact document
     Junk(bool, String),
 }
@@ -68,7 +70,8 @@ pub const REWRITES: &[&str] = &[
     "swap-minor-patch", "rotate-primaries", "dup-minor-only", "post-in-core", "dev-in-build", "major-last-in-build",
     "unknown-ts:core", "unknown-ts:extra_core", "unknown-ts:build", "empty-ts:extra_core", "combined-ts:extra_core", "combined-ts:core",
     "dup-context:core", "dup-context:extra_core", "str-in:core", "str-in:extra_core", "uint-in:extra_core", "custom-in:core", "custom-in:extra_core",
-    "dup-primary-apart", "dup-secondary-apart",
+    "dup-primary-apart", "dup-secondary-apart", "empty-precedence", "drop-precedence:Minor", "drop-precedence:Major", "drop-precedence:Post",
+    "dup-precedence:Major", "reverse-precedence",
 ];
 
 fn hostile_none_argv(r: &mut Rng) -> Vec<String> {
@@ -189,6 +192,12 @@ pub fn generate(r: &mut Rng, tier: Tier, _group: u64) -> serde_json::Value {
             7 => Fault::DupChunk(r.below(1_000_000) as usize, 1 + r.below(40) as usize),
             _ => Fault::Rewrite(r.pick(REWRITES).to_string()),
         });
+    }
+    for _ in 0..3 {
+        // half of the pairs combine a placement edit with an edit of the precedence list
+        let prec: Vec<&&str> = REWRITES.iter().filter(|k| k.contains("precedence")).collect();
+        let second = if r.chance(1, 2) { r.pick(&prec).to_string() } else { r.pick(REWRITES).to_string() };
+        faults.push(Fault::Rewrite2(r.pick(REWRITES).to_string(), second));
     }
     for _ in 0..2 {
         let junk = *r.pick(&["garbage", ")", ",", "()", "x", "\n(\n)\n", "// a trailing comment\n", "/* block */", "#![enable(implicit_some)]", "\u{feff}", "\0", "<<DOC>>", " \n\t "]);
@@ -321,7 +330,7 @@ pub fn rewrite(doc: &str, kind: &str) -> Option<String> {
             let at = open_section(&mut lines, "build")?;
             lines.insert(at, format!("{comp_indent}var(ts(\"QQ\")),"));
         }
-        k if k.contains(':') => {
+        k if k.contains(':') && !k.contains("precedence") => {
             // <what>:<section> – one component inserted into the named section
             let (what, sec_name) = k.split_once(':')?;
             let comp = match what {
@@ -339,6 +348,29 @@ pub fn rewrite(doc: &str, kind: &str) -> Option<String> {
             if what == "dup-context" {
                 let (_, e) = section_bounds(&lines, sec_name)?;
                 lines.insert(e, format!("{comp_indent}{comp},"));
+            }
+        }
+        "empty-precedence" | "reverse-precedence" => {
+            let (s0, e) = section_bounds(&lines, "precedence_order")?;
+            if e > s0 {
+                if kind == "empty-precedence" {
+                    lines.drain(s0 + 1..e);
+                } else {
+                    lines[s0 + 1..e].reverse();
+                }
+            } else {
+                return None;
+            }
+        }
+        k if k.starts_with("drop-precedence:") || k.starts_with("dup-precedence:") => {
+            let (what, name) = k.split_once(':')?;
+            let (s0, e) = section_bounds(&lines, "precedence_order")?;
+            let i = (s0 + 1..e).find(|&i| lines[i].trim() == format!("{name},"))?;
+            if what == "drop-precedence" {
+                lines.remove(i);
+            } else {
+                let l = lines[i].clone();
+                lines.insert(i, l);
             }
         }
         "dup-primary-apart" => {
@@ -416,6 +448,7 @@ impl<'a> Pipe<'a> {
             path: None,
             rm_cwd: false,
             stdout: crate::proc::Stdout::Capture,
+            stderr: crate::proc::Stdout::Capture,
         };
         stats.bump("producer_processes");
         run_zerv(self.ctx, self.rd, &call, stats)
@@ -434,6 +467,7 @@ impl<'a> Pipe<'a> {
             path: None,
             rm_cwd: false,
             stdout: crate::proc::Stdout::Capture,
+            stderr: crate::proc::Stdout::Capture,
         };
         stats.bump("consumer_processes");
         run_zerv(self.ctx, self.rd, &call, stats)
@@ -653,7 +687,7 @@ pub fn execute(ctx: &Ctx, scv: &serde_json::Value, rd: &RunDir, stats: &mut Stat
                     ));
                 }
             }
-            Fault::BitFlip(..) | Fault::DropChunk(..) | Fault::DupChunk(..) | Fault::Rewrite(_) | Fault::Junk(..) => {
+            Fault::BitFlip(..) | Fault::DropChunk(..) | Fault::DupChunk(..) | Fault::Rewrite(_) | Fault::Rewrite2(..) | Fault::Junk(..) => {
                 let (damaged, label): (Vec<u8>, String) = match f {
                     Fault::BitFlip(pos, bit) => {
                         let mut d = doc.clone();
@@ -687,6 +721,13 @@ pub fn execute(ctx: &Ctx, scv: &serde_json::Value, rd: &RunDir, stats: &mut Stat
                         }
                         (d, format!("junk:{}:{}", if *after { "after" } else { "before" }, junk.escape_default()))
                     }
+                    Fault::Rewrite2(k1, k2) => match rewrite(&doc_s, k1).and_then(|d1| rewrite(&d1, k2)) {
+                        Some(s) => (s.into_bytes(), format!("rewrite:{k1}+{k2}")),
+                        None => {
+                            stats.bump("rewrite_not_applicable");
+                            continue;
+                        }
+                    },
                     Fault::Rewrite(kind) => match rewrite(&doc_s, kind) {
                         Some(s) => (s.into_bytes(), format!("rewrite:{kind}")),
                         None => {
